@@ -76,9 +76,14 @@ func (b Bloom) Test(test *big.Int) bool {
 	return BloomLookup(b, test)
 }
 
-func (b Bloom) TestBytes(test []byte) bool {
-	return b.Test(new(big.Int).SetBytes(test))
+// rawBytes lets a plain byte slice be looked up without going through
+// big.Int, which drops leading zero bytes.
+type rawBytes []byte
 
+func (r rawBytes) Bytes() []byte { return r }
+
+func (b Bloom) TestBytes(test []byte) bool {
+	return BloomLookup(b, rawBytes(test))
 }
 
 // MarshalText encodes b as a hex string with 0x prefix.
